@@ -17,6 +17,7 @@ package vc
 import (
 	"fmt"
 	"go/types"
+	"sort"
 	"strings"
 )
 
@@ -29,6 +30,8 @@ type recDef struct {
 	ret    Sort
 	retTyp types.Type
 	calls  []recCall
+	// element heaps that the body reads only at the backing arrays of these slice parameters
+	restrict map[string][]int
 }
 
 // recCall is one recursive call inside the definition: the condition under which it is
@@ -103,7 +106,22 @@ func (e *Env) callRec(ps *PredSpec, x *CallE) Val {
 		terms = append(terms, fl...)
 	}
 	for _, h := range def.heaps {
-		terms = append(terms, fx.heap(e.st, h, def.hsorts[h]))
+		ht := fx.heap(e.st, h, def.hsorts[h])
+		if idx, ok := def.restrict[h]; ok && e.st.sym == nil {
+			// The body reads this element heap only through the backing arrays of slice
+			// arguments: pass a heap that agrees with the current one on those arrays only, so
+			// that writes to other arrays leave the value of the function unchanged (no
+			// induction needed for framing).
+			_, inner := def.hsorts[h].ArrParts()
+			r := ConstArr(def.hsorts[h], fx.zeroOfSort(inner))
+			for _, ai := range idx {
+				if sv, ok := args[ai].(SliceV); ok {
+					r = Store(r, sv.Base, Select(ht, sv.Base))
+				}
+			}
+			ht = r
+		}
+		terms = append(terms, ht)
 	}
 	if e.recFuel != nil && e.recOf == ps.Name {
 		// a recursive call inside the definition: remember (guard, measure of the callee) for the
@@ -189,6 +207,57 @@ func (fx *FuncVC) defineRec(ps *PredSpec, args []Val, e *Env) *recDef {
 		}
 		if round > 6 {
 			cfail("recursive spec function %s: heap dependencies did not stabilise", ps.Name)
+		}
+	}
+	// element heaps read only at the backing arrays of slice parameters can be passed restricted
+	def.restrict = map[string][]int{}
+	for _, h := range def.heaps {
+		hs := def.hsorts[h]
+		if !hs.IsArr() {
+			continue
+		}
+		if _, inner := hs.ArrParts(); !inner.IsArr() {
+			continue
+		}
+		bases := map[string]int{}
+		for i, sh := range def.shapes {
+			if sv, ok := sh.(SliceV); ok {
+				bases[sv.Base.S] = i
+			}
+		}
+		marker := "(select " + symHeapVar(h) + " "
+		okAll := true
+		used := map[int]bool{}
+		for _, txt := range []string{body.S, measure.S} {
+			for rest := txt; ; {
+				k := strings.Index(rest, marker)
+				if k < 0 {
+					break
+				}
+				rest = rest[k+len(marker):]
+				end := strings.IndexAny(rest, " )")
+				if end < 0 {
+					okAll = false
+					break
+				}
+				if ai, isBase := bases[rest[:end]]; isBase {
+					used[ai] = true
+				} else {
+					okAll = false
+				}
+			}
+		}
+		// a bare occurrence of the heap variable (e.g. passed on to another function) defeats the argument
+		if strings.Count(body.S, symHeapVar(h)) != strings.Count(body.S, marker)+strings.Count(body.S, symHeapVar(h)+")") {
+			okAll = false
+		}
+		if okAll && len(used) > 0 {
+			var idx []int
+			for ai := range used {
+				idx = append(idx, ai)
+			}
+			sort.Ints(idx)
+			def.restrict[h] = idx
 		}
 	}
 	if body.Sort != def.ret {
